@@ -269,3 +269,33 @@ func init() {
 		return Str{A: b[:len(b):len(b)]}
 	})
 }
+
+func init() {
+	// go-faster/errors.wrapError.Error() is fmt.Sprint(e), which goes through fmt.Formatter (not modelled):
+	// the text is "msg: inner error" (what FormatError prints for %v)
+	reg("(*github.com/go-faster/errors.wrapError).Error", func(m *Machine, fr *frame, a []Value) Value {
+		p, _ := a[0].(*Value)
+		if p == nil {
+			m.rtPanic("invalid memory address or nil pointer dereference")
+		}
+		st := (*p).(Struct)
+		out := st[0].(Str)
+		if inner, ok := st[1].(Iface); ok && inner.T != nil {
+			if fn := m.findMethod(inner.T, "Error"); fn != nil {
+				s := m.call(fr, token.NoPos, fn, []Value{inner.V}).(Str)
+				out = StrConcat(StrConcat(out, CStr(": ")), s)
+			}
+		}
+		return out
+	})
+}
+
+func init() {
+	cmp := func(a, b Str) Value {
+		return Ite(StrLess(a, b), BV(64, ^uint64(0)), Ite(StrEq(a, b), BV(64, 0), BV(64, 1)))
+	}
+	reg("strings.Compare", func(m *Machine, fr *frame, a []Value) Value { return cmp(a[0].(Str), a[1].(Str)) })
+	reg("internal/bytealg.abigen_runtime_cmpstring", func(m *Machine, fr *frame, a []Value) Value {
+		return cmp(a[0].(Str), a[1].(Str))
+	})
+}
